@@ -588,4 +588,4 @@ def _(eng, m, g, a):
 def _(eng, m, g, a):
     if m.group(1) == m.group(2): return a[0]
     if m.group(1).endswith("String") and m.group(2) in ("&str", "&String", "&mut str"): return StrV(list(deref(a[0]).p))
-    raise Unmodelled(m.group(0))
+    raise Pass()
